@@ -108,3 +108,21 @@ Theorem write_read_cycle_updated :
     exists t, read_model (cycle_input_opts pr (update_input_model old (ci_drop ci) (map (fun nm => (nm, false)) hdr)) mdt hdr rows) = Ok t /\
               table_same t hdr rows = true.
 Proof. exact write_read_cycle_updated_lemma. Qed.
+
+(* The cycle for a model that HAS IGNORE/ACCEPT lists (Spec.v: "filters of the written model o written data =
+   identity on the in-memory dataset").  `old` is the model's input (any IGNORE=c, NULL=c, any lists), (hdr, rows)
+   its in-memory, already filtered dataset.  When update_source regenerates the $DATA record (dataset, datainfo
+   or path changed) and the record names the newly written file, reading the written files returns the
+   in-memory dataset whatever the old lists were, and the written record carries no list any more; when nothing
+   changed the written input is the old one, so re-reading is the same computation as the original read.
+   The remaining case — record regenerated but still naming the OLD file — is stale_path_refuted. *)
+Theorem write_read_cycle_filtered :
+  forall (pr : Q -> str) (old : input) (ci : colinfo) (ns mdt : str) (hdr : list str) (rows : list (list cell)),
+    column_info (i_options old) = Ok ci -> null_string (i_null old) = Ok ns ->
+    g_no_anon (i_options old) (length hdr) = true -> g_no_same_dropped (i_options old) hdr = true ->
+    cycle_guard pr mdt hdr rows = true ->
+    (exists t, read_model (written_input pr true true old ci mdt hdr rows) = Ok t /\ table_same t hdr rows = true) /\
+    i_ignore (written_input pr true true old ci mdt hdr rows) = [] /\
+    i_accept (written_input pr true true old ci mdt hdr rows) = [] /\
+    (forall renamed, written_input pr false renamed old ci mdt hdr rows = old).
+Proof. exact write_read_cycle_filtered_lemma. Qed.
